@@ -295,6 +295,31 @@ def stepFn (f : String) (args : List String) (impl : List (List String)) : RowOu
 def cfgOf (c : Case) (k : String) : Option (List String) :=
   (c.cfg.find? fun l => l.head? = some k).map List.tail
 
+/-- the harness's long spellings of the six columns -/
+def kwName (c : Ex.Str) : Ex.Str :=
+  if c == ['a'] then "order_id".toList else if c == ['b'] then "is_b".toList else if c == ['s'] then "origin".toList
+  else if c == ['t'] then "island".toList else if c == ['f'] then "is_ok".toList else if c == ['n'] then "notes".toList else c
+
+def renameCols : Expr → Expr
+  | .lit l => .lit l
+  | .str s => .str s
+  | .col c => .col (kwName c)
+  | .paren e => .paren (renameCols e)
+  | .neg e => .neg (renameCols e)
+  | .arith op l r => .arith op (renameCols l) (renameCols r)
+  | .cmp op l r => .cmp op (renameCols l) (renameCols r)
+  | .and l r => .and (renameCols l) (renameCols r)
+  | .or l r => .or (renameCols l) (renameCols r)
+  | .not e => .not (renameCols e)
+  | .caseS ch => .caseS (renameCols ch)
+  | .caseV sc ch => .caseV (renameCols sc) (renameCols ch)
+  | .whenL c r rest => .whenL (renameCols c) (renameCols r) (renameCols rest)
+  | .elseL e => .elseL (renameCols e)
+  | .endL => .endL
+  | .call1 f a => .call1 f (renameCols a)
+  | .call2 f a b => .call2 f (renameCols a) (renameCols b)
+  | .call3 f a b c => .call3 f (renameCols a) (renameCols b) (renameCols c)
+
 def run (c : Case) : CaseOut := Id.run do
   let eOpt := (cfgOf c "expr").bind fun toks => (parseExpr 4000 toks).map (·.1)
   let text := ((cfgOf c "text").bind fun l => l.head?.bind unhex).getD []
@@ -309,8 +334,11 @@ def run (c : Case) : CaseOut := Id.run do
   let mut fails : List (String × String) := []
   let mut tags : List String := []
   let mut seen : List (List String × List (List String)) := []
+  -- cfg `names kw`: the harness spells the columns a b s t f n as order_id is_b origin island is_ok notes, in the SQL text
+  -- and in the rows (identifiers that begin like the word operators OR / IS / NOT); the model keeps the short names
+  let kw := cfgOf c "names" == some ["kw"]
   let renderOk := match eOpt with
-    | some e => (cfgOf c "text").isNone || render e == text
+    | some e => (cfgOf c "text").isNone || render (if kw then renameCols e else e) == text
     | none => true
   if !renderOk then fails := fails ++ [("render-differs", "none")]
   for (op, impl) in c.ops do
